@@ -53,6 +53,12 @@ def make_oracle(prop):
                 arr = None
             if isinstance(arr, np.ndarray) and arr.ndim == 1:
                 fails += spec["fn"](ctx["std"], "StandardSet", arr, "numpy")
+                if prop == "C05" and len(arr) >= 2:
+                    # views that are not C-contiguous (reversed, stepped): still the caller's object
+                    for view, vname in ((arr[::-1], "numpy-reversed-view"), (np.repeat(arr, 2)[::2], "numpy-stepped-view")):
+                        for f in spec["fn"](ctx["std"], "StandardSet", view, "numpy"):
+                            f["backend"] = vname
+                            fails.append(f)
         if prop != "C07" and "list" in spec["backends"] and len(s) <= 8:
             try:
                 fails += spec["fn"](ctx["std"], "StandardSet", list(s), "list")
@@ -100,6 +106,10 @@ def rebuild(r):
     b = r.get("backend", "pandas")
     if b == "numpy":
         return s.to_numpy()
+    if b == "numpy-reversed-view":
+        return s.to_numpy()[::-1]
+    if b == "numpy-stepped-view":
+        return np.repeat(s.to_numpy(), 2)[::2]
     if b == "list":
         return list(s)
     if b == "frame" and r.get("frame_recipe"):
